@@ -62,14 +62,18 @@ func (m *M) opProve(t *rapid.T) {
 	}
 	b := m.blocks[rapid.IntRange(0, len(m.blocks)-1).Draw(t, "block")]
 	pos := rapid.IntRange(0, len(b.txids)-1).Draw(t, "pos")
-	withHeader := rapid.Bool().Draw(t, "withHeader")
+	form := rapid.SampledFrom([]string{"header", "hash", "both", "both"}).Draw(t, "form")
 	corrupt := rapid.SampledFrom([]string{"none", "none", "txid", "path", "index", "dup", "header", "hash", "swap"}).Draw(t, "corrupt")
 	for _, inst := range m.insts {
-		m.prove(t, inst, b, pos, withHeader, corrupt)
+		m.prove(t, inst, b, pos, form, corrupt)
 	}
 }
 
-func (m *M) prove(t *rapid.T, inst *Inst, b *block, pos int, withHeader bool, corrupt string) {
+// form: "header" = proof carries the block header, "hash" = only the block hash, "both" = header
+// and hash (the form the block downloader emits); with both, the SUPPLIED HEADER is what must be
+// known to the repository, whatever the hash field names.
+func (m *M) prove(t *rapid.T, inst *Inst, b *block, pos int, form string, corrupt string) {
+	withHeader := form != "hash"
 	path, dups := model.MerklePath(b.txids, pos)
 	txid := b.txids[pos]
 	index := pos
@@ -168,8 +172,12 @@ func (m *M) prove(t *rapid.T, inst *Inst, b *block, pos int, withHeader bool, co
 	}
 	if withHeader {
 		proof.BlockHeader = toWire(&raw)
-	} else {
+	}
+	if form != "header" {
 		h := bitcoin.Hash32(hash)
+		if form == "both" && corrupt == "header" {
+			h = bitcoin.Hash32(b.raw.Hash()) // altered header next to the hash of the real, known block
+		}
 		proof.BlockHash = &h
 	}
 	var height int
@@ -178,8 +186,11 @@ func (m *M) prove(t *rapid.T, inst *Inst, b *block, pos int, withHeader bool, co
 	if p := vt.Catch(func() { height, longest, err = inst.repo.VerifyMerkleProof(vt.Ctx(), proof) }); p != nil {
 		m.fail(inst, "VerifyMerkleProof panicked: %v", p)
 	}
-	desc := fmt.Sprintf("block %s (%d txs, %s) pos %d withHeader=%v corrupt=%s %s", m.label(b.raw.Hash()), len(b.txids), b.status, pos, withHeader, corrupt, detail)
-	m.k.Op("prove txs=%d pos=%d withHeader=%v corrupt=%s known=%v want=%v", len(b.txids), pos, withHeader, corrupt, isKnown, wantOK)
+	desc := fmt.Sprintf("block %s (%d txs, %s) pos %d form=%s corrupt=%s %s", m.label(b.raw.Hash()), len(b.txids), b.status, pos, form, corrupt, detail)
+	m.k.Op("prove txs=%d pos=%d form=%s corrupt=%s known=%v want=%v", len(b.txids), pos, form, corrupt, isKnown, wantOK)
+	if form == "both" && corrupt == "header" {
+		m.k.Class("altered_header_with_hash_of_known_block")
+	}
 	m.proofs++
 	if corrupt != "none" {
 		m.corruptProofs++
@@ -205,7 +216,7 @@ func (m *M) prove(t *rapid.T, inst *Inst, b *block, pos int, withHeader bool, co
 	}
 }
 
-const ruleC18 = genDesc + " plus blocks: headers whose merkle root commits to 1..33 generated txids (odd/even widths at several levels) attached anywhere (best chain, side branches, later pruned or dropped, or withheld = never submitted); proofs built by an independent merkle implementation for a drawn position, given with the header or with the block hash only, valid or with ONE corrupted element (txid bit, path node, index, duplicate marker dropped/added, one header field, block hash, two path nodes swapped); oracle: VerifyMerkleProof succeeds exactly when the independently recomputed root equals the merkle root of a header the model says is known (so an index change that leaves the path parity unchanged is not a failure), and then returns the model height and ancestor-of-tip flag; non-trivial = history with a corrupted proof and a proof for a side-branch or pruned-history block; distinct = hash of the abstract operation list"
+const ruleC18 = genDesc + " plus blocks: headers whose merkle root commits to 1..33 generated txids (odd/even widths at several levels) attached anywhere (best chain, side branches, later pruned or dropped, or withheld = never submitted); proofs built by an independent merkle implementation for a drawn position, given with the header, with the block hash only, or with both (the form the block downloader emits; an altered header next to the hash of the real block must fail), valid or with ONE corrupted element (txid bit, path node, index, duplicate marker dropped/added, one header field, block hash, two path nodes swapped); oracle: VerifyMerkleProof succeeds exactly when the independently recomputed root equals the merkle root of a header the model says is known (so an index change that leaves the path parity unchanged is not a failure), and then returns the model height and ancestor-of-tip flag; non-trivial = history with a corrupted proof and a proof for a side-branch or pruned-history block; distinct = hash of the abstract operation list"
 
 var weightsC18 = map[string]int{"extend": 4, "late": 1, "clean": 2, "reload": 1, "block": 4, "prove": 8}
 
